@@ -587,7 +587,11 @@ impl CloseGroupValidator {
         let mut confirmations = 0;
 
         for response in responses {
-            let weight = response.peer_trust_score.unwrap_or(0.5);
+            // Trust scores live in [0, 1]. Keep the weight in that range so that a malformed
+            // score (negative, above 1, NaN or infinite) can neither turn a confirmation into
+            // negative confirming weight, dominate the sum, nor poison it with NaN.
+            // (`max`/`min` rather than `clamp`: `f64::max` maps NaN to 0.0.)
+            let weight = response.peer_trust_score.unwrap_or(0.5).max(0.0).min(1.0);
             total_weight += weight;
 
             if response.confirms_membership {
